@@ -352,10 +352,16 @@ ADV_EXCLUDE = ()
 
 
 def plan(tier):
-    return [("runs", 16), ("container", 4), ("advopts", 16)]
+    return [("runs", 16), ("container", 4), ("advopts", 16), ("stobads", 16)]
 
 
 def run_part(res, part, tier, seed, shard, nshards):
+    if part == "stobads":
+        # StoBADS (noisy targets only): the incumbent is updated through other branches, with their own argument order
+        return runlevel.sweep(res, dict(PROFILE, noise_modes=("declared", "specified", "auto"), max_iter_choices=(None,), p_cons=0.0,
+                                        extra_opts=(("stobads", (True,), 1.0), ("stobads_frame_size_scaling_power", (0, 1, 2), 0.7),
+                                                    ("opp_stobads", (False,), 0.3))),
+                              64 if tier == "quick" else 1000, seed + 61, shard, nshards, body_run)
     if part == "advopts":
         return runlevel.adv_sweep(res, PROFILE, tier, seed, shard, nshards, body_run, exclude=ADV_EXCLUDE)
     if part == "runs":
@@ -365,14 +371,14 @@ def run_part(res, part, tier, seed, shard, nshards):
 
 
 def minimise(part, tier, sig, case, seed):
-    if part in ("runs", "advopts"):
+    if part in ("runs", "advopts", "stobads"):
         return runlevel.field_minimise(case, sig, body_run, max_runs=12 if tier == "quick" else 40)
     m = engine.hyp_minimise(container_histories(), lambda c: any(engine.signature(x) == sig for x in run_container(c)[0]), 3000, seed)
     return {"case": m or case, "note": "hypothesis shrink" if m else "unminimised"}
 
 
 def replay(part, case):
-    if part in ("runs", "advopts"):
+    if part in ("runs", "advopts", "stobads"):
         return runlevel.replay_body(body_run, case)
     return run_container(case)[0]
 
